@@ -188,6 +188,14 @@ Proof.
   pose proof HR as [[HK [HF HB]] HA]. rewrite HF, (eval_all_R _ _ _ HR); auto.
 Qed.
 
+Lemma tdep_R : forall s1 s2 owt dr, R (vars_l (map snd owt)) s1 s2 -> tdep s1 owt dr = tdep s2 owt dr.
+Proof.
+  intros s1 s2 owt dr HR. unfold tdep. pose proof HR as [[HK [HF HB]] HA]. rewrite HF.
+  assert (Hc : forallb (res_closed (lookup s1)) (kept dr owt) = forallb (res_closed (lookup s2)) (kept dr owt)).
+  { apply closed_all_R. eapply R_sub; [|exact HR]. apply kept_vars. }
+  destruct (kept dr owt); auto. rewrite Hc; auto.
+Qed.
+
 Lemma R_kept : forall s1 s2 dr l, R (vars_l (map snd l)) s1 s2 -> R (vars_l (kept dr l)) s1 s2.
 Proof. intros. eapply R_sub; [|exact H]. apply kept_vars. Qed.
 
@@ -254,6 +262,9 @@ Proof.
     destruct (IHp Hwf s1 s2 drop Hi) as [H1 H2]. split; auto.
     rewrite H1, (scalar_R s1 s2 (sa ++ kept drop sc)); auto. apply R_vars_app; auto. apply R_kept; auto.
   - rewrite (eager_R _ _ _ _ HR); auto.
+  - (* ParT *)
+    apply R_app in HR as [Hi Ho]. cbn [wf] in Hwf. destruct (IHp Hwf s1 s2 drop Hi) as [H1 H2].
+    split; auto. rewrite H1, (tdep_R _ _ _ drop Ho); auto.
 Qed.
 
 (* ---- _create_program ---- *)
@@ -292,6 +303,8 @@ Proof.
     destruct (validate s2 cs); cbn [bind]; auto. apply IHp; auto.
     eapply R_mapped; [exact Hm| |exact Hsub]. auto.
   - (* Ren *) cbn [pnames] in HR. cbn [wf] in Hwf. cbn [run]. apply IHp; auto.
+  - (* ParT *) cbn [pnames] in HR. apply R_app in HR as [Hi Ho]. cbn [wf] in Hwf. cbn [run].
+    rewrite (tdep_R _ _ _ drop Ho), (IHp Hwf s1 s2 drop Hi); auto.
 Qed.
 
 (* clause (b) in full: assignments that agree on the declared names give the same result *)
